@@ -16,6 +16,8 @@ pub mod drive;
 
 pub mod h {
     pub mod c03;
+    pub mod c03x;
+    pub mod c05;
     pub mod c06;
     pub mod c07f;
     pub mod c09;
@@ -24,6 +26,7 @@ pub mod h {
     pub mod dbg;
     pub mod c12;
     pub mod c13;
+    pub mod c14;
     pub mod c16;
     pub mod c16v;
     pub mod c17;
@@ -32,7 +35,7 @@ pub mod h {
 use nd::FileNd;
 
 pub fn lookup(name: &str) -> Option<fn(&mut FileNd)> {
-    let tables: &[&[(&str, fn(&mut FileNd))]] = &[h::c03::TABLE, h::c06::TABLE, h::c07f::TABLE, h::c09::TABLE, h::c10::TABLE, h::c11::TABLE, h::c12::TABLE, h::c13::TABLE, h::c16::TABLE, h::c16v::TABLE, h::c17::TABLE, h::dbg::TABLE];
+    let tables: &[&[(&str, fn(&mut FileNd))]] = &[h::c03::TABLE, h::c03x::TABLE, h::c05::TABLE, h::c06::TABLE, h::c07f::TABLE, h::c09::TABLE, h::c10::TABLE, h::c11::TABLE, h::c12::TABLE, h::c13::TABLE, h::c14::TABLE, h::c16::TABLE, h::c16v::TABLE, h::c17::TABLE, h::dbg::TABLE];
     for t in tables {
         for (n, f) in t.iter() {
             if *n == name {
@@ -44,6 +47,6 @@ pub fn lookup(name: &str) -> Option<fn(&mut FileNd)> {
 }
 
 pub fn all_names() -> Vec<&'static str> {
-    let tables: &[&[(&str, fn(&mut FileNd))]] = &[h::c03::TABLE, h::c06::TABLE, h::c07f::TABLE, h::c09::TABLE, h::c10::TABLE, h::c11::TABLE, h::c12::TABLE, h::c13::TABLE, h::c16::TABLE, h::c16v::TABLE, h::c17::TABLE, h::dbg::TABLE];
+    let tables: &[&[(&str, fn(&mut FileNd))]] = &[h::c03::TABLE, h::c03x::TABLE, h::c05::TABLE, h::c06::TABLE, h::c07f::TABLE, h::c09::TABLE, h::c10::TABLE, h::c11::TABLE, h::c12::TABLE, h::c13::TABLE, h::c14::TABLE, h::c16::TABLE, h::c16v::TABLE, h::c17::TABLE, h::dbg::TABLE];
     tables.iter().flat_map(|t| t.iter().map(|(n, _)| *n)).collect()
 }
